@@ -13,6 +13,7 @@ import (
 	"net/http"
 	"net/http/httptest"
 	"net/url"
+	"regexp"
 	"sort"
 	"strconv"
 	"strings"
@@ -47,6 +48,14 @@ type regManifest struct {
 type reqLog struct {
 	Method, Path, Query string
 	Status              int
+	CT, Range           string
+	CL                  int64
+}
+
+// respMutation changes one field of an otherwise valid response.
+type respMutation struct {
+	field string // "dcd" | "clen" | "ctype"
+	value string // new header value; "" = remove the header (clen: unknown length)
 }
 
 type fakeRegistry struct {
@@ -63,6 +72,8 @@ type fakeRegistry struct {
 	servedNext []bool
 	servedLast []string // the `last` value each Link header carried ("" when no link)
 	padBody    int // extra bytes of JSON padding inside listing documents
+	mutate     *respMutation // applied to the next response that is not referrers maintenance, then cleared
+	badReq     []string      // requests the distribution specification does not allow
 }
 
 func newFakeRegistry(p regProfile) *fakeRegistry {
@@ -104,8 +115,201 @@ func (f *fakeRegistry) ServeHTTP(w0 http.ResponseWriter, r *http.Request) {
 	defer f.mu.Unlock()
 	w := &statusWriter{ResponseWriter: w0, status: 200}
 	defer func() {
-		f.log = append(f.log, reqLog{r.Method, r.URL.Path, r.URL.RawQuery, w.status})
+		f.log = append(f.log, reqLog{r.Method, r.URL.Path, r.URL.RawQuery, w.status, r.Header.Get("Content-Type"), r.Header.Get("Range"), r.ContentLength})
 	}()
+	if bad := validateRequest(r); bad != "" {
+		f.badReq = append(f.badReq, r.Method+" "+r.URL.RequestURI()+": "+bad)
+	}
+	if f.mutate != nil && !isReferrersMaintenance(r.URL.Path) {
+		m := f.mutate
+		f.mutate = nil
+		rec := httptest.NewRecorder()
+		f.route(&statusWriter{ResponseWriter: rec, status: 200}, r)
+		f.writeMutated(w, r, rec, m)
+		return
+	}
+	f.route(w, r)
+}
+
+func isReferrersMaintenance(p string) bool {
+	return strings.Contains(p, "/referrers/") || strings.Contains(p, "/manifests/sha256-")
+}
+
+// writeMutated replays a recorded response with one field changed.
+func (f *fakeRegistry) writeMutated(w *statusWriter, r *http.Request, rec *httptest.ResponseRecorder, m *respMutation) {
+	h := w.Header()
+	for k, v := range rec.Header() {
+		h[k] = v
+	}
+	body := rec.Body.Bytes()
+	flush := false
+	switch m.field {
+	case "dcd":
+		if m.value == "" {
+			h.Del("Docker-Content-Digest")
+		} else {
+			h.Set("Docker-Content-Digest", m.value)
+		}
+	case "ctype":
+		if m.value == "" {
+			h["Content-Type"] = nil // suppress sniffing as well
+		} else {
+			h.Set("Content-Type", m.value)
+		}
+	case "clen":
+		if m.value == "" {
+			h.Del("Content-Length")
+			flush = true
+		} else {
+			n, _ := strconv.Atoi(m.value)
+			h.Set("Content-Length", m.value)
+			if r.Method != http.MethodHead {
+				for len(body) < n {
+					body = append(body, 'x')
+				}
+				body = body[:n]
+			}
+		}
+	}
+	w.WriteHeader(rec.Code)
+	if flush && r.Method != http.MethodHead {
+		if fl, ok := w.ResponseWriter.(http.Flusher); ok {
+			fl.Flush() // chunked: the client sees an unknown length
+		}
+	}
+	if r.Method != http.MethodHead {
+		w.Write(body)
+	}
+}
+
+var (
+	reRepoName = regexp.MustCompile(`^[a-z0-9]+((\.|_|__|-+)[a-z0-9]+)*(/[a-z0-9]+((\.|_|__|-+)[a-z0-9]+)*)*$`)
+	reTagName  = regexp.MustCompile(`^[a-zA-Z0-9_][a-zA-Z0-9._-]{0,127}$`)
+	reRange    = regexp.MustCompile(`^bytes=[0-9]+-[0-9]*$`)
+)
+
+// validateRequest checks a request against the end-point table of the OCI distribution
+// specification v1.1 ("" = allowed).
+func validateRequest(r *http.Request) string {
+	p := r.URL.Path
+	q := r.URL.Query()
+	if p == "/v2/" || p == "/v2" {
+		if r.Method != http.MethodGet {
+			return "method on /v2/"
+		}
+		return ""
+	}
+	if p == "/v2/_catalog" {
+		if r.Method != http.MethodGet {
+			return "method on catalog"
+		}
+		return ""
+	}
+	if !strings.HasPrefix(p, "/v2/") {
+		return "outside /v2/"
+	}
+	rest := strings.TrimPrefix(p, "/v2/")
+	isDigest := func(s string) bool { return digest.Digest(s).Validate() == nil }
+	for _, kind := range []string{"/blobs/uploads/", "/blobs/", "/manifests/", "/tags/list", "/referrers/"} {
+		i := strings.LastIndex(rest, kind)
+		if i < 0 {
+			continue
+		}
+		name, ref := rest[:i], rest[i+len(kind):]
+		if !reRepoName.MatchString(name) {
+			return "repository name"
+		}
+		switch kind {
+		case "/blobs/uploads/":
+			switch {
+			case r.Method == http.MethodPost && ref == "":
+				if m := q.Get("mount"); m != "" {
+					if !isDigest(m) {
+						return "mount digest"
+					}
+					if from := q.Get("from"); from != "" && !reRepoName.MatchString(from) {
+						return "mount from"
+					}
+				}
+				if r.ContentLength > 0 && q.Get("digest") == "" {
+					return "POST upload with a body but no digest"
+				}
+			case r.Method == http.MethodPut && ref != "":
+				if !isDigest(q.Get("digest")) {
+					return "PUT upload without a valid digest parameter"
+				}
+				if r.ContentLength < 0 {
+					return "PUT upload without Content-Length"
+				}
+				if r.Header.Get("Content-Type") != "application/octet-stream" {
+					return "PUT upload Content-Type"
+				}
+				if q.Get("state") == "" {
+					return "PUT upload dropped the Location's query"
+				}
+			case r.Method == http.MethodPatch && ref != "", r.Method == http.MethodGet && ref != "", r.Method == http.MethodDelete && ref != "":
+			default:
+				return "method on uploads"
+			}
+		case "/blobs/":
+			if !isDigest(ref) {
+				return "blob reference is not a digest"
+			}
+			switch r.Method {
+			case http.MethodGet, http.MethodHead:
+				if rg := r.Header.Get("Range"); rg != "" {
+					if !reRange.MatchString(rg) {
+						return "Range form"
+					}
+					var a, b int
+					if n, _ := fmt.Sscanf(rg, "bytes=%d-%d", &a, &b); n == 2 && b < a {
+						return "Range with last-byte-pos before first-byte-pos"
+					}
+				}
+			case http.MethodDelete:
+			default:
+				return "method on blobs"
+			}
+		case "/manifests/":
+			if !isDigest(ref) && !reTagName.MatchString(ref) {
+				return "manifest reference"
+			}
+			switch r.Method {
+			case http.MethodGet, http.MethodHead:
+				if r.Header.Get("Accept") == "" {
+					return "manifest pull without Accept"
+				}
+			case http.MethodPut:
+				if r.Header.Get("Content-Type") == "" {
+					return "manifest push without Content-Type"
+				}
+				if r.ContentLength < 0 {
+					return "manifest push without Content-Length"
+				}
+			case http.MethodDelete:
+			default:
+				return "method on manifests"
+			}
+		case "/tags/list":
+			if r.Method != http.MethodGet || ref != "" {
+				return "tags/list"
+			}
+			if n := q.Get("n"); n != "" {
+				if _, err := strconv.Atoi(n); err != nil {
+					return "n parameter"
+				}
+			}
+		case "/referrers/":
+			if r.Method != http.MethodGet || !isDigest(ref) {
+				return "referrers"
+			}
+		}
+		return ""
+	}
+	return "unknown end-point"
+}
+
+func (f *fakeRegistry) route(w *statusWriter, r *http.Request) {
 	for k, st := range f.failNext {
 		parts := strings.SplitN(k, " ", 2)
 		if r.Method == parts[0] && strings.Contains(r.URL.Path, parts[1]) {
@@ -247,7 +451,7 @@ func (f *fakeRegistry) serveBlob(w http.ResponseWriter, r *http.Request, name, r
 			if rg := r.Header.Get("Range"); strings.HasPrefix(rg, "bytes=") {
 				var from int
 				fmt.Sscanf(strings.TrimPrefix(rg, "bytes="), "%d-", &from)
-				if from > len(data) {
+				if from >= len(data) { // RFC 7233: a first-byte-pos at or beyond the length is unsatisfiable
 					w.WriteHeader(416)
 					return
 				}
